@@ -1,6 +1,7 @@
 package bounded
 
 import (
+	"strings"
 	"fmt"
 	"reflect"
 	"testing"
@@ -21,7 +22,7 @@ func TestC16(t *testing.T) {
 	}
 	args := strs(alphabet, n)
 	args = append(args, "' OR 1=1 -- ", "\\' OR 1=1 -- ", "x'; DROP TABLE t; --", "\\", "\\\\'", "''", "a\\'b", "/* */ $1", "-- $1\n", "%27", "\\x27")
-	r := &result{Property: "C16", Name: "sanitized-argument-is-one-literal-and-echoes", Bound: fmt.Sprintf("all strings of length <= %d over %q plus %d hand-picked injection strings; templates: WHERE a = $1, SELECT $1 AS v FROM dual", n, alphabet, 11)}
+	r := &result{Property: "C16", Name: "sanitized-argument-is-one-literal-and-echoes", Bound: fmt.Sprintf("all strings of length <= %d over %q plus %d hand-picked injection strings; templates: WHERE a = $1, SELECT $1 AS v FROM dual, and four templates in which the placeholder is glued to a comment, a literal or a quoted identifier that contains another $1", n, alphabet, 11)}
 	doc := map[string]any{"t": []any{map[string]any{"a": "x", "n": 1.0}, map[string]any{"a": "y", "n": 2.0}}}
 	for _, arg := range args {
 		r.Cases++
@@ -78,6 +79,20 @@ func TestC16(t *testing.T) {
 		row, _ := rs[0].(map[string]any)
 		if !reflect.DeepEqual(row["v"], arg) {
 			r.violate("arg %q: echo returned %#v", arg, row["v"])
+		}
+		// (3) a placeholder directly followed by something that opens a comment, a literal or a quoted identifier:
+		// what follows is still lexed as such (the placeholder inside it is left alone) and the argument is echoed
+		for _, tmpl := range []string{"SELECT $1/* $1 */ AS v FROM dual", "SELECT $1-- $1\n AS v FROM dual", "SELECT $1`v` FROM dual", "SELECT $1'$1' AS v FROM dual"} {
+			r.Cases++
+			sql3, err := sanitize.SanitizeSQL(tmpl, arg)
+			if err != nil {
+				r.violateClass("glued-placeholder", "arg %q template %q: sanitizer error %v", arg, tmpl, err)
+				continue
+			}
+			want := strings.Replace(tmpl, "$1", sanitize.QuoteString(arg), 1)
+			if sql3 != want {
+				r.violateClass("glued-placeholder", "arg %q template %q: got %q, want %q (only the first $1 is a placeholder)", arg, tmpl, sql3, want)
+			}
 		}
 	}
 	// other argument kinds echo as well
